@@ -24,7 +24,7 @@ F_EFAC = z3.Function("efac", z3.RealSort(), z3.ArraySort(z3.IntSort(), z3.RealSo
 
 F_FIN = z3.Function("fin", z3.IntSort(), z3.BoolSort())
 
-SPEC_FUNCS = {"fin", "count_lt", "count_le", "evw", "sum_le", "sum_ext", "old", "forall", "exists", "implies", "iff", "wsum", "exp", "log", "fresh", "same", "ite", "length", "pow", "written", "nwrites", "at_loop_entry", "divides", "is_int"}
+SPEC_FUNCS = {"only_element_read", "fin", "count_lt", "count_le", "evw", "sum_le", "sum_ext", "old", "forall", "exists", "implies", "iff", "wsum", "exp", "log", "fresh", "same", "ite", "length", "pow", "written", "nwrites", "at_loop_entry", "divides", "is_int"}
 
 
 class Contract:
@@ -104,6 +104,10 @@ def declare_fields(cls, default="Real", **fields):
 def field_type(cls, attr):
     if cls.startswith("List[") and attr.startswith("["):
         inner = cls[5:-1]
+        if inner == "WeatherRow":
+            return ("Arr", "Real", 5)
+        if inner in ("Real", "PosReal"):
+            return inner
         return ("Obj", inner) if inner not in ("Opaque", "Real", "Int") else inner
     d = FIELD_TYPES.get(cls)
     if d is None:
@@ -139,6 +143,14 @@ def spec_call(interp, node, st):
         lo = interp.ev(a[1], st)
         hi = interp.ev(a[2], st)
         univ = (fn == "forall")
+        if interp.ctx.concrete and isinstance(lo, int) and isinstance(hi, int):
+            res = []
+            for jv in range(lo, hi):
+                st3 = st.copy()
+                st3.bound = dict(st.bound)
+                st3.bound[jn] = jv
+                res.append(truth(interp.ev(a[3], st3)))
+            return all(res) if univ else any(res)
         pol = st.polarity if univ else -st.polarity
         st2 = st.copy()
         st2.bound = dict(st.bound)
@@ -186,6 +198,13 @@ def spec_call(interp, node, st):
         if rd is None or ra is None:
             raise ToolLimit("wsum over non-arrays")
         return F_WSUM(rd.term, ra.term, z(k))
+    if fn == "only_element_read":
+        # only_element_read(lst, i): of the list-of-records parameter `lst`, the executed path touched no element other than lst[i]
+        lst = interp.ev(a[0], st)
+        idx = interp.ev(a[1], st)
+        rec = st.heap[lst.oid]
+        key = "[%s]" % (str(z3.simplify(z(idx))) if V.is_sym(idx) else str(idx))
+        return all(k == key for k in rec.fields.keys())
     if fn == "fin":
         # abstract trajectory predicate: fin(k) <=> the model is finished after k performed time steps (the state after k steps
         # is a function of k only: determinism of the step, see C10)
